@@ -20,6 +20,7 @@ CLAIMED = {
  "C13": (LEVEL + "No-nesting bit and all other option bits symbolic; every mix of offered value kinds (primitive, nil, Stack, three alias forms, Condition) by fork; reflective alias detection runs in the engine's reflect model and is confirmed natively.", COMMON_NOTE),
  "C15": (LEVEL + "Destination capacity field is a solver variable spanning too-small to ample; source/destination lengths enumerated; all destination variants (Stack, alias, pointer, read-only, zero, foreign, nil).", COMMON_NOTE),
  "C18": (LEVEL + "The option word (2^8 states) and the log-level mask (2^16) are solver variables, so a wrong mask constant or operator is found for whichever neighbouring bit it corrupts; strings and encapsulation characters are symbolic bytes.", COMMON_NOTE),
+ "C17": (LEVEL + "Every exported method and package-level function is enumerated from go/types method sets of the tree under test at run time (a method added later is covered automatically) and called on zero / freed / Init()-only receivers with symbolic ints and bools and a catalogue of awkward values.", COMMON_NOTE),
 }
 _pending = "check not built yet in this round (solver-based harness planned, DESIGN.md §4); not a statement that the technique cannot apply"
 NA = {("C%02d" % i): _pending for i in range(1, 21) if ("C%02d" % i) not in CLAIMED}
